@@ -81,11 +81,47 @@ pub open spec fn is_permutation_of(new: Seq<VehicleIdx>, old: Seq<VehicleIdx>) -
     &&& forall|v: VehicleIdx| new.contains(v) <==> old.contains(v)
 }
 
+/// the abstract state of a Transition (the views of its fields); all C15 vocabulary is stated on it
+pub ghost struct TView {
+    pub cycles: Seq<TransitionCycle>,
+    pub total_violation: int,
+    pub total_counter: int,
+    pub lookup: Map<VehicleIdx, CycleIdx>,
+    pub empty: Seq<CycleIdx>,
+}
+impl View for Transition {
+    type V = TView;
+    open spec fn view(&self) -> TView {
+        TView {
+            cycles: self.cycles@,
+            total_violation: self.total_maintenance_violation as int,
+            total_counter: self.total_maintenance_counter as int,
+            lookup: self.cycle_lookup@,
+            empty: self.empty_cycles@,
+        }
+    }
+}
 impl Transition {
-    pub open spec fn n(&self) -> int { self.cycles@.len() as int }
-    pub open spec fn cyc(&self, i: int) -> Seq<VehicleIdx> { self.cycles@[i].cycle@ }
-    pub open spec fn has_vehicle(&self, v: VehicleIdx) -> bool { self.cycle_lookup@.contains_key(v) }
-    pub open spec fn cycle_of(&self, v: VehicleIdx) -> int { self.cycle_lookup@[v] as int }
+    pub open spec fn n(&self) -> int { self@.n() }
+    pub open spec fn cyc(&self, i: int) -> Seq<VehicleIdx> { self@.cyc(i) }
+    pub open spec fn has_vehicle(&self, v: VehicleIdx) -> bool { self@.has_vehicle(v) }
+    pub open spec fn cycle_of(&self, v: VehicleIdx) -> int { self@.cycle_of(v) }
+    pub open spec fn succ_of(&self, v: VehicleIdx) -> VehicleIdx { self@.succ_of(v) }
+    pub open spec fn pred_of(&self, v: VehicleIdx) -> VehicleIdx { self@.pred_of(v) }
+    pub open spec fn total_len(&self) -> int { self@.total_len() }
+    pub open spec fn wf_cycles(&self) -> bool { self@.wf_cycles() }
+    pub open spec fn wf_lookup(&self) -> bool { self@.wf_lookup() }
+    pub open spec fn wf_empty(&self) -> bool { self@.wf_empty() }
+    pub open spec fn tours_real(&self, tours: Map<VehicleIdx, Tour>) -> bool { self@.tours_real(tours) }
+    pub open spec fn wf_but_empty(&self, net: &Network, tours: Map<VehicleIdx, Tour>) -> bool { self@.wf_but_empty(net, tours) }
+    /// C15: the transition is consistent with the tours
+    pub open spec fn wf(&self, net: &Network, tours: Map<VehicleIdx, Tour>) -> bool { self@.wf(net, tours) }
+}
+impl TView {
+    pub open spec fn n(&self) -> int { self.cycles.len() as int }
+    pub open spec fn cyc(&self, i: int) -> Seq<VehicleIdx> { self.cycles[i].cycle@ }
+    pub open spec fn has_vehicle(&self, v: VehicleIdx) -> bool { self.lookup.contains_key(v) }
+    pub open spec fn cycle_of(&self, v: VehicleIdx) -> int { self.lookup[v] as int }
     /// C05: the cyclic successor of v in the cycle containing it
     pub open spec fn succ_of(&self, v: VehicleIdx) -> VehicleIdx {
         let c = self.cyc(self.cycle_of(v));
@@ -95,7 +131,7 @@ impl Transition {
         let c = self.cyc(self.cycle_of(v));
         c[(c.index_of(v) + c.len() - 1) % (c.len() as int)]
     }
-    pub open spec fn total_len(&self) -> int { sum_seq(lens_of(self.cycles@)) }
+    pub open spec fn total_len(&self) -> int { sum_seq(lens_of(self.cycles)) }
 
     /// every cycle is duplicate-free, cycles are pairwise disjoint (and the transition is small)
     pub open spec fn wf_cycles(&self) -> bool {
@@ -108,17 +144,17 @@ impl Transition {
     /// the lookup has exactly the vehicles occurring in cycles as keys and maps each to the index
     /// of the cycle containing it
     pub open spec fn wf_lookup(&self) -> bool {
-        &&& forall|v: VehicleIdx| #[trigger] self.cycle_lookup@.contains_key(v)
+        &&& forall|v: VehicleIdx| #[trigger] self.lookup.contains_key(v)
             ==> 0 <= self.cycle_of(v) < self.n() && self.cyc(self.cycle_of(v)).contains(v)
         &&& forall|i: int, a: int| 0 <= i < self.n() && 0 <= a < self.cyc(i).len()
-            ==> self.cycle_lookup@.contains_key(#[trigger] self.cyc(i)[a]) && self.cycle_of(self.cyc(i)[a]) == i
+            ==> self.lookup.contains_key(#[trigger] self.cyc(i)[a]) && self.cycle_of(self.cyc(i)[a]) == i
     }
     /// empty_cycles is duplicate-free and contains exactly the indices of the empty cycles
     pub open spec fn wf_empty(&self) -> bool {
-        &&& self.empty_cycles@.no_duplicates()
-        &&& forall|k: int| 0 <= k < self.empty_cycles@.len()
-            ==> 0 <= #[trigger] self.empty_cycles@[k] < self.n() && self.cyc(self.empty_cycles@[k] as int).len() == 0
-        &&& forall|i: int| 0 <= i < self.n() && (#[trigger] self.cyc(i)).len() == 0 ==> self.empty_cycles@.contains(i as usize)
+        &&& self.empty.no_duplicates()
+        &&& forall|k: int| 0 <= k < self.empty.len()
+            ==> 0 <= #[trigger] self.empty[k] < self.n() && self.cyc(self.empty[k] as int).len() == 0
+        &&& forall|i: int| 0 <= i < self.n() && (#[trigger] self.cyc(i)).len() == 0 ==> self.empty.contains(i as usize)
     }
     /// every vehicle of a cycle has a well-formed non-dummy tour (network-independent part)
     pub open spec fn tours_real(&self, tours: Map<VehicleIdx, Tour>) -> bool {
@@ -134,9 +170,9 @@ impl Transition {
     /// the stored counters are exact
     pub open spec fn wf_counters(&self, net: &Network, tours: Map<VehicleIdx, Tour>) -> bool {
         &&& forall|i: int| 0 <= i < self.n()
-            ==> self.cycles@[i].maintenance_counter == spec_cycle_counter(net, tours, #[trigger] self.cyc(i))
-        &&& self.total_maintenance_counter == sum_seq(counters_of(self.cycles@))
-        &&& self.total_maintenance_violation == sum_seq(violations_of(self.cycles@))
+            ==> self.cycles[i].maintenance_counter == spec_cycle_counter(net, tours, #[trigger] self.cyc(i))
+        &&& self.total_counter == sum_seq(counters_of(self.cycles))
+        &&& self.total_violation == sum_seq(violations_of(self.cycles))
     }
     /// everything but the clause about empty_cycles
     pub open spec fn wf_but_empty(&self, net: &Network, tours: Map<VehicleIdx, Tour>) -> bool {
@@ -453,4 +489,174 @@ pub proof fn lemma_counter_push(net: &Network, tours: Map<VehicleIdx, Tour>, c: 
     lemma_sum_push(a1, tour_counter(&tours[v]));
     lemma_sum_update(b1, n - 1, x);
     lemma_sum_push(b1.update(n - 1, x), y);
+}
+
+// ---- the whole transition -----------------------------------------------------------------------------
+impl TView {
+    /// magnitudes implied by wf: they make the i64 arithmetic of the modifications overflow free
+    pub proof fn lemma_bounds(&self, net: &Network, tours: Map<VehicleIdx, Tour>)
+        requires self.wf_but_empty(net, tours),
+        ensures
+            forall|i: int| 0 <= i < self.n() ==> 0 <= (#[trigger] self.cyc(i)).len() <= self.total_len(),
+            forall|i: int| 0 <= i < self.n() ==>
+                -(self.cyc(i).len() * vehicle_bound()) <= (#[trigger] self.cycles[i]).maintenance_counter <= self.cyc(i).len() * vehicle_bound(),
+            -(self.total_len() * vehicle_bound()) <= self.total_counter <= self.total_len() * vehicle_bound(),
+            0 <= self.total_violation <= self.total_len() * vehicle_bound(),
+            0 <= self.total_len() * vehicle_bound() <= 0x400_0000_0000_0000,
+    {
+        let ls = lens_of(self.cycles);
+        let cs = counters_of(self.cycles);
+        let vs = violations_of(self.cycles);
+        assert forall|i: int| 0 <= i < self.n() implies 0 <= (#[trigger] self.cyc(i)).len() <= self.total_len() by {
+            lemma_sum_elem_le(ls, i);
+            assert(ls[i] == self.cyc(i).len());
+        }
+        assert forall|i: int| 0 <= i < self.n() implies
+            -(ls[i] * vehicle_bound()) <= #[trigger] cs[i] <= ls[i] * vehicle_bound() by {
+            let c = self.cyc(i);
+            assert(cycle_tours_ok(net, tours, c));
+            lemma_counter_bound(net, tours, c);
+        }
+        assert forall|i: int| 0 <= i < self.n() implies 0 <= #[trigger] vs[i] <= ls[i] * vehicle_bound() by {
+            assert(cs[i] == self.cycles[i].maintenance_counter);
+        }
+        lemma_sum_scaled(cs, ls, vehicle_bound());
+        lemma_sum_scaled_nonneg(vs, ls, vehicle_bound());
+        lemma_sum_nonneg(ls);
+        assert forall|i: int| 0 <= i < self.n() implies
+            -(self.cyc(i).len() * vehicle_bound()) <= (#[trigger] self.cycles[i]).maintenance_counter <= self.cyc(i).len() * vehicle_bound() by {
+            assert(cs[i] == self.cycles[i].maintenance_counter);
+            assert(ls[i] == self.cyc(i).len());
+        }
+        let tl = self.total_len();
+        assert(0 <= tl * vehicle_bound() <= 0x400_0000_0000_0000) by (nonlinear_arith)
+            requires 0 <= tl <= 0x2_0000, vehicle_bound() == 0x200_0000_0000;
+    }
+}
+
+/// C15 frame lemma: one cycle (index k) of a consistent transition is replaced by `nc`; the tours may
+/// change for the vehicles of that cycle and for vehicles not in any cycle.  The new cycle must be
+/// duplicate-free, must not take vehicles of other cycles, its vehicles need admissible tours and
+/// its counter must be exact; the lookup and the totals must have been adjusted accordingly.
+pub proof fn lemma_frame(old_t: TView, new_t: TView, net: &Network, tours: Map<VehicleIdx, Tour>, tours2: Map<VehicleIdx, Tour>, k: int, nc: TransitionCycle)
+    requires
+        old_t.wf_but_empty(net, tours),
+        0 <= k < old_t.n(),
+        new_t.cycles == old_t.cycles.update(k, nc),
+        // tours
+        forall|x: VehicleIdx| #[trigger] old_t.lookup.contains_key(x) && old_t.cycle_of(x) != k ==> tours2.contains_key(x) && tours2[x] == tours[x],
+        cycle_tours_ok(net, tours2, nc.cycle@),
+        // new cycle
+        nc.cycle@.no_duplicates(),
+        forall|a: int| 0 <= a < nc.cycle@.len() ==> !(old_t.lookup.contains_key(#[trigger] nc.cycle@[a]) && old_t.cycle_of(nc.cycle@[a]) != k),
+        old_t.total_len() - old_t.cyc(k).len() + nc.cycle@.len() <= max_vehicles(),
+        // lookup
+        forall|v: VehicleIdx| #[trigger] new_t.lookup.contains_key(v) ==>
+            (nc.cycle@.contains(v) && new_t.cycle_of(v) == k)
+            || (old_t.lookup.contains_key(v) && old_t.cycle_of(v) != k && new_t.cycle_of(v) == old_t.cycle_of(v)),
+        forall|a: int| 0 <= a < nc.cycle@.len() ==> new_t.lookup.contains_key(#[trigger] nc.cycle@[a]) && new_t.cycle_of(nc.cycle@[a]) == k,
+        forall|v: VehicleIdx| #[trigger] old_t.lookup.contains_key(v) && old_t.cycle_of(v) != k ==>
+            new_t.lookup.contains_key(v) && new_t.cycle_of(v) == old_t.cycle_of(v),
+        // counters
+        nc.maintenance_counter == spec_cycle_counter(net, tours2, nc.cycle@),
+        new_t.total_counter == old_t.total_counter - old_t.cycles[k].maintenance_counter + nc.maintenance_counter,
+        new_t.total_violation == old_t.total_violation - max0(old_t.cycles[k].maintenance_counter as int) + max0(nc.maintenance_counter as int),
+    ensures
+        new_t.wf_but_empty(net, tours2),
+        new_t.total_len() == old_t.total_len() - old_t.cyc(k).len() + nc.cycle@.len(),
+{
+    let n = old_t.n();
+    assert(new_t.n() == n);
+    assert(new_t.cyc(k) == nc.cycle@);
+    assert forall|i: int| 0 <= i < n && i != k implies #[trigger] new_t.cyc(i) == old_t.cyc(i) by {}
+    // sizes
+    assert(lens_of(new_t.cycles) =~= lens_of(old_t.cycles).update(k, nc.cycle@.len() as int));
+    lemma_sum_update(lens_of(old_t.cycles), k, nc.cycle@.len() as int);
+    // cycles
+    assert forall|i: int| 0 <= i < n implies (#[trigger] new_t.cyc(i)).no_duplicates() by {
+        if i != k { assert(old_t.cyc(i).no_duplicates()); }
+    }
+    assert forall|i: int, j: int, a: int, b: int|
+        0 <= i < n && 0 <= j < n && i != j && 0 <= a < new_t.cyc(i).len() && 0 <= b < new_t.cyc(j).len()
+        implies #[trigger] new_t.cyc(i)[a] != #[trigger] new_t.cyc(j)[b] by {
+        if i != k && j != k {
+            assert(old_t.cyc(i)[a] != old_t.cyc(j)[b]);
+        } else if i == k {
+            let y = old_t.cyc(j)[b];
+            assert(old_t.lookup.contains_key(y) && old_t.cycle_of(y) == j);
+            assert(nc.cycle@[a] != y);
+        } else {
+            let y = old_t.cyc(i)[a];
+            assert(old_t.lookup.contains_key(y) && old_t.cycle_of(y) == i);
+            assert(nc.cycle@[b] != y);
+        }
+    }
+    assert(new_t.wf_cycles());
+    // lookup
+    assert forall|v: VehicleIdx| #[trigger] new_t.lookup.contains_key(v)
+        implies 0 <= new_t.cycle_of(v) < n && new_t.cyc(new_t.cycle_of(v)).contains(v) by {
+        if !(nc.cycle@.contains(v) && new_t.cycle_of(v) == k) {
+            assert(old_t.lookup.contains_key(v));
+            assert(old_t.cyc(old_t.cycle_of(v)).contains(v));
+            assert(new_t.cyc(old_t.cycle_of(v)) == old_t.cyc(old_t.cycle_of(v)));
+        }
+    }
+    assert forall|i: int, a: int| 0 <= i < n && 0 <= a < new_t.cyc(i).len()
+        implies new_t.lookup.contains_key(#[trigger] new_t.cyc(i)[a]) && new_t.cycle_of(new_t.cyc(i)[a]) == i by {
+        if i != k {
+            let y = old_t.cyc(i)[a];
+            assert(old_t.lookup.contains_key(y) && old_t.cycle_of(y) == i);
+        }
+    }
+    assert(new_t.wf_lookup());
+    // tours
+    assert forall|i: int, a: int| 0 <= i < n && 0 <= a < new_t.cyc(i).len()
+        implies tours2.contains_key(#[trigger] new_t.cyc(i)[a]) && tour_ok(net, &tours2[new_t.cyc(i)[a]]) by {
+        if i != k {
+            let y = old_t.cyc(i)[a];
+            assert(old_t.lookup.contains_key(y) && old_t.cycle_of(y) == i);
+            assert(tours.contains_key(y) && tour_ok(net, &tours[y]));
+        }
+    }
+    assert(new_t.wf_tours(net, tours2));
+    // counters
+    assert forall|i: int| 0 <= i < n
+        implies new_t.cycles[i].maintenance_counter == spec_cycle_counter(net, tours2, #[trigger] new_t.cyc(i)) by {
+        if i != k {
+            let c = old_t.cyc(i);
+            assert forall|a: int| 0 <= a < c.len() implies tours[#[trigger] c[a]] == tours2[c[a]] by {
+                let y = old_t.cyc(i)[a];
+                assert(old_t.lookup.contains_key(y) && old_t.cycle_of(y) == i);
+            }
+            lemma_counter_same(net, tours, tours2, c);
+            assert(old_t.cycles[i].maintenance_counter == spec_cycle_counter(net, tours, old_t.cyc(i)));
+        }
+    }
+    assert(counters_of(new_t.cycles) =~= counters_of(old_t.cycles).update(k, nc.maintenance_counter as int));
+    lemma_sum_update(counters_of(old_t.cycles), k, nc.maintenance_counter as int);
+    assert(violations_of(new_t.cycles) =~= violations_of(old_t.cycles).update(k, max0(nc.maintenance_counter as int)));
+    lemma_sum_update(violations_of(old_t.cycles), k, max0(nc.maintenance_counter as int));
+    assert(new_t.wf_counters(net, tours2));
+}
+
+/// a rearrangement of cycle k keeps the tours admissible, takes no vehicle of another cycle and
+/// keeps the lookup right
+pub proof fn lemma_perm_tours_ok(t: TView, net: &Network, tours: Map<VehicleIdx, Tour>, k: int, nc: Seq<VehicleIdx>)
+    requires t.wf_but_empty(net, tours), 0 <= k < t.n(), is_permutation_of(nc, t.cyc(k)),
+    ensures
+        cycle_tours_ok(net, tours, nc),
+        forall|a: int| 0 <= a < nc.len() ==> t.lookup.contains_key(#[trigger] nc[a]) && t.cycle_of(nc[a]) == k,
+        forall|v: VehicleIdx| #[trigger] t.lookup.contains_key(v) && t.cycle_of(v) == k ==> nc.contains(v),
+{
+    let c = t.cyc(k);
+    assert forall|a: int| 0 <= a < nc.len() implies
+        tours.contains_key(#[trigger] nc[a]) && tour_ok(net, &tours[nc[a]]) && t.lookup.contains_key(nc[a]) && t.cycle_of(nc[a]) == k by {
+        assert(nc.contains(nc[a]));
+        assert(c.contains(nc[a]));
+        let b = choose|b: int| 0 <= b < c.len() && c[b] == nc[a];
+        assert(t.cyc(k)[b] == nc[a]);
+    }
+    assert forall|v: VehicleIdx| #[trigger] t.lookup.contains_key(v) && t.cycle_of(v) == k implies nc.contains(v) by {
+        assert(t.cyc(t.cycle_of(v)).contains(v));
+    }
 }
